@@ -185,25 +185,46 @@ where
     where
         FIP: FnOnce() -> T,
     {
-        // We do not today make use of our right to create a "first" instance of `T` even when
-        // we do not need it. This is a potential future optimization if it proves valuable.
-
-        let mut global_registry = GLOBAL_REGISTRY.write().expect(ERR_POISONED_LOCK);
-
         // TODO: We are repeatedly acquiring the family key here and in sibling functions.
         // Perhaps a trivial cost but explore the value of eliminating the duplicate access.
         let family_key = (self.family_key_provider)();
-        let entry = global_registry.entry(family_key);
 
-        match entry {
-            hash_map::Entry::Occupied(_) => (),
-            hash_map::Entry::Vacant(entry) => {
-                // TODO: We create an instance here, only to immediately transform it back to
-                // a family. Can we skip the middle step and just create a family directly?
-                let first_instance = first_instance_provider();
-                entry.insert(Box::new(first_instance.family()));
-            }
+        // Fast path: some thread has already registered the family.
+        if GLOBAL_REGISTRY
+            .read()
+            .expect(ERR_POISONED_LOCK)
+            .contains_key(&family_key)
+        {
+            return;
         }
+
+        // The provider is user code and may itself use other linked variables, whose first
+        // access needs the registry lock. We therefore make use of our right to create a
+        // "first" instance that may turn out to be surplus, and create it without holding
+        // the registry lock.
+        //
+        // TODO: We create an instance here, only to immediately transform it back to
+        // a family. Can we skip the middle step and just create a family directly?
+        let family = {
+            let first_instance = first_instance_provider();
+            first_instance.family()
+        };
+
+        // The first registration wins. If we lost the race, our surplus family was never
+        // exposed to anyone and is dropped after the registry lock has been released.
+        let surplus = {
+            let mut global_registry = GLOBAL_REGISTRY.write().expect(ERR_POISONED_LOCK);
+
+            match global_registry.entry(family_key) {
+                hash_map::Entry::Occupied(_) => Some(family),
+                hash_map::Entry::Vacant(entry) => {
+                    entry.insert(Box::new(family));
+                    None
+                }
+            }
+        };
+
+        drop(surplus);
     }
 
     // Attempts to obtain a new instance of `T` using the current thread's family registry,
